@@ -22,7 +22,7 @@
 //	join                wait for the async actors
 //	exit <old|new> <ok|ctx|err e>   make the oldest/newest running instance return nil / ctx.Err() / error e
 //	mode hold|auto      instances entering from now on return ctx.Err() as soon as their ctx is cancelled (auto)
-//	gate exec|hold      hold the next hit of the exec-start / hold-enter schedule point
+//	gate exec|hold [n]  hold the next (n-th) hit of the exec-start / hold-enter schedule point
 //	waitgate <i>        wait (bounded) until gate i holds a goroutine
 //	open <i>            open gate i
 //	probe               probe contexts of running instances and all returned wait channels
@@ -687,7 +687,13 @@ func exec(state bool) func(script []string, opt comp.Options) comp.Result {
 					if len(f) > 1 && f[1] == "hold" {
 						kind = "hold-enter"
 					}
-					gates = append(gates, hk.AddGate(kind, nil, 1))
+					nth := 1
+					if len(f) > 2 {
+						if n, err := strconv.Atoi(f[2]); err == nil && n >= 1 && n <= 4 {
+							nth = n
+						}
+					}
+					gates = append(gates, hk.AddGate(kind, nil, nth))
 				case "waitgate":
 					i, _ := strconv.Atoi(f[1])
 					if i >= 0 && i < len(gates) {
@@ -954,6 +960,17 @@ func gen(state bool) func(rng *rand.Rand, tier string) []string {
 					out = append(out, "setroutine 0")
 				}
 				out = append(out, "exit old ctx", "exit old ctx", "settle")
+			case r < 53 && state:
+				// SetStateRoutine parked between its two lock acquisitions while the state is changed
+				v := 1 + rng.Intn(4)
+				out = append(out, "join", "gate hold 2", fmt.Sprintf("async setsr %d", 1+rng.Intn(2)), fmt.Sprintf("waitgate %d", ngate))
+				if rng.Intn(3) == 0 {
+					out = append(out, fmt.Sprintf("async swap %d", v))
+				} else {
+					out = append(out, fmt.Sprintf("async setstate %d", v))
+				}
+				out = append(out, "settle", fmt.Sprintf("open %d", ngate), "join", "exit old ctx", "exit old ctx", "settle", "probe", "quiesce")
+				ngate++
 			case r < 56 && retry:
 				// a failed routine waiting for its retry is replaced inside the backoff window
 				out = append(out, fmt.Sprintf("exit old err %d", 1+rng.Intn(3)), "pause", setR(true), "advance", "probe")
@@ -1059,6 +1076,10 @@ func init() {
 			// a failed state routine waiting for its retry is replaced by a new state / a new function
 			{"cfg state 1 1 0 ds 20", "setsr 1", "setctx 1 0", "setstate 1", "settle", "exit old err 2", "settle", "setstate 2", "advance", "probe", "quiesce", "clearctx", "settle", "probe", "quiesce", "exit old ctx", "exit old ctx", "quiesce"},
 			{"cfg state 0 1 1 dds 20", "setctx 1 0", "setstate 1", "setsr 1", "settle", "exit old err 1", "settle", "setsr 2", "advance", "probe", "quiesce", "exit old err 3", "settle", "swap 3", "advance", "probe", "quiesce", "exit old ctx", "exit old ok", "quiesce"},
+			// SetStateRoutine parked between the wrapper lock and the inner lock while SetState runs: whichever order the two
+			// take effect, the surviving instance is given the stored state (snapshot + install are one section of the wrapper lock)
+			{"cfg state 1 0 0", "setctx 1 0", "setsr 1", "setstate 1", "settle", "gate hold 2", "async setsr 2", "waitgate 0", "async setstate 2", "settle", "open 0", "join", "exit old ctx", "exit old ctx", "settle", "probe", "quiesce", "exit old ctx", "quiesce"},
+			{"cfg state 0 0 1", "setctx 1 0", "setsr 1", "setstate 3", "settle", "gate hold 2", "async setsr 1", "waitgate 0", "async swap 4", "settle", "open 0", "join", "exit old ctx", "exit old ctx", "settle", "probe", "quiesce", "exit old ctx", "quiesce"},
 			// concurrent SetState / SetContext / exits (D4)
 			{"cfg state 0 0 1", "setsr 1", "setctx 1 0", "mode auto", "async setstate 1", "async setctx 2 0", "async setstate 2", "async setctx 1 1", "async setstate 3", "join", "quiesce", "getstate", "exit old ok", "quiesce"},
 		},
